@@ -8,5 +8,6 @@ CONSTANTS
   EmitLists = {}
 INVARIANT Inv_Surfaces
 INVARIANT Inv_Offsets
+INVARIANT Inv_Mux
 INVARIANT Emit
 CHECK_DEADLOCK FALSE
